@@ -212,9 +212,12 @@ class Tags:
         for d in real:
             t = STEP
             if d.value is not None and not d.sel and d.node != nid and \
-                    not isinstance(d.value, ast.Call):
+                    isinstance(d.value, (ast.Name, ast.Attribute, ast.IfExp, ast.BoolOp, ast.Subscript)):
+                # (arithmetic on field values - the Heun update written out - makes a new value
+                # of the current step, like the call of the update function does)
                 # a copy / selection of other field values carries their tag
                 inner = set()
+                whole_is_input = False
                 for x in walk_local(d.value):
                     if isinstance(x, (ast.Name, ast.Attribute)) and dotted(x) and \
                             "field" in dotted(x).split(".")[-1] and x is not d.value or \
@@ -222,17 +225,23 @@ class Tags:
                         if isinstance(x, ast.Name) and not [dd for dd in self._name_defs(x.id, d.node)
                                                             if dd.sel != (("param",),)] \
                                 and x.id not in self.field_env:
+                            whole_is_input = whole_is_input or x is d.value
                             continue        # an input value (initial field): no constraint
                         if isinstance(x, ast.Name):
                             xd = [dd for dd in self._name_defs(x.id, d.node)
                                   if dd.sel != (("param",),)]
                             if xd and not any(self._in_cycle(dd.node) for dd in xd):
+                                whole_is_input = whole_is_input or x is d.value
                                 continue    # defined once before the loop: an input value
                         ti = self.field_tag(x, d.node)
                         if ti is not None:
                             inner.add(ti)
                 if len(inner) == 1:
                     t = inner.pop()
+                elif whole_is_input and len(real) > 1:
+                    # one branch of a selection copies an input value (`x = initial if first
+                    # else field`, written as an if statement): the other branch decides
+                    continue
             if self._crosses_back_edge(d.node, nid) or d.node == nid:
                 t = self._shift(t)
             tags.add(t)
@@ -391,7 +400,9 @@ def f1(prog: Program, chk: Check) -> None:
         _judge_field(chk, u, "compute_dynamics_with_field", c, tu.time_tag(c.args[0], nid),
                      tu.field_tag(c.args[2], nid) if len(c.args) > 2 else None, tu.du)
     closures = [v for v in prog.nested_units(u) if _field_eom_calls(v)]
-    if not closures:
+    if not closures and len(_field_eom_calls(u)) < 5:
+        # without a closure the two Heun updates (loop, final state) stand in the function
+        # itself and were judged above: 2 x 2 stages + the slope handed to the propagators
         raise AnalysisError("F1: the compute_field closure of compute_dynamics_with_field vanished")
     for v in closures:
         sites = [(n.id, c) for n in tu.g.nodes if not n.copy_of for c in n.calls()
@@ -426,23 +437,40 @@ def f2(prog: Program, chk: Check) -> None:
     chk.rule("F2", "Heun form in both implementations: rk2 is evaluated at field a + DT*rk1 and "
              "time T + DT; the result is a + DT/2*rk1 + DT/2*rk2", floor=6)
     sites = [prog.unit("tempo:MeanFieldTempo._compute_field")]
-    sites += [v for v in prog.nested_units(prog.unit("system_dynamics:compute_dynamics_with_field"))
-              if _field_eom_calls(v)]
+    outer = prog.unit("system_dynamics:compute_dynamics_with_field")
+    sites += [v for v in prog.nested_units(outer) if _field_eom_calls(v)]
+    sites.append(outer)
+    groups = []
     for u in sites:
         du = DefUse(u, CFG(u.node, exc_edges=False))
         chk.saw(u, du.cfg)
-        calls = sorted(_field_eom_calls(u), key=lambda c: c.lineno)
-        if len(calls) != 2:
-            raise AnalysisError(f"F2: expected two field_eom stages in {u.qual}")
+        calls = _field_eom_calls(u)
         names = {}
         for c in calls:
             nid = du.node_of(c)
             for d in du.gen.get(nid, []):
                 names[id(c)] = d.name
-        r1, r2 = names.get(id(calls[0])), names.get(id(calls[1]))
-        if not r1 or not r2:
-            raise AnalysisError(f"F2: stages of {u.qual} are not bound to names")
-
+        # a Heun pair: the second stage is evaluated at a field built from the first slope
+        from oqv.dataflow import expand as _expand
+        slopes = {v for v in names.values()}
+        found = [(c1, c2) for c2 in calls if len(c2.args) > 2 for c1 in calls
+                 if c1 is not c2 and names.get(id(c1))
+                 and any(isinstance(x, ast.Name) and x.id == names[id(c1)]
+                         for x in ast.walk(_expand(du, du.node_of(c2), c2.args[2], depth=4,
+                                                   stop_names=slopes)))]
+        if not found and len(calls) == 2 and u is not outer:
+            # no data dependence between the two stages (that is what F2 is about to report)
+            found = [tuple(sorted(calls, key=lambda c: (c.lineno, c.col_offset)))]
+        if u is not outer and len(found) != 1:
+            raise AnalysisError(f"F2: expected two field_eom stages in {u.qual}")
+        for c1, c2 in found:
+            if not names.get(id(c2)):
+                raise AnalysisError(f"F2: stages of {u.qual} are not bound to names")
+            groups.append((u, du, [c1, c2], names[id(c1)], names[id(c2)]))
+    if len(groups) < 2:
+        raise AnalysisError("F2: fewer than two Heun updates found (MeanFieldTempo._compute_field and "
+                            "compute_dynamics_with_field)")
+    for u, du, calls, r1, r2 in groups:
         # A: the field value the first stage is evaluated at; T: its time. Other locals are
         # followed to their definitions; what is left is a symbol named by its own text.
         a_text = norm(calls[0].args[2]) if len(calls[0].args) > 2 else None
@@ -476,10 +504,14 @@ def f2(prog: Program, chk: Check) -> None:
             dtime = t2 - t1
         chk.add("F2", u, f"rk2 time - rk1 time = {dtime}", dtime == DT,
                 "" if dtime == DT else "the second stage is not evaluated one step later", calls[1])
-        rets = [x for x in walk_local(u.node) if isinstance(x, ast.Return)]
+        # the statement that combines both slopes (the return of the closure / method, or an
+        # assignment when the update stands in the stepper itself)
+        rets = [x for x in walk_local(u.node) if isinstance(x, (ast.Return, ast.Assign))
+                and x.value is not None
+                and {r1, r2} <= {y.id for y in ast.walk(x.value) if isinstance(y, ast.Name)}]
         f_ret = form_at(du, du.node_of(rets[0]), rets[0].value, leaf) if len(rets) == 1 else None
         want = A + half * DT * R1 + half * DT * R2
-        chk.add("F2", u, f"return {norm(rets[0].value) if rets else ''}", f_ret == want,
+        chk.add("F2", u, f"result {norm(rets[0].value) if rets else ''}", f_ret == want,
                 f"form {f_ret}" if f_ret == want else f"form {f_ret}, expected {want}",
                 rets[0] if rets else None)
 
